@@ -49,6 +49,24 @@ func main() {
 		fmt.Println(string(b))
 		return
 	}
+	if len(os.Args) > 1 && os.Args[1] == "knowntypes" {
+		// prints the reference description of named types (ref/known_types.json)
+		noSrcInline = true
+		all := map[string]refType{}
+		for _, a := range thoroughArches {
+			ww, err := Load(repoDir(), a)
+			if err != nil {
+				fmt.Fprintln(os.Stderr, err)
+				os.Exit(2)
+			}
+			for k, v := range declaredTypes(ww.All) {
+				all[k] = v
+			}
+		}
+		b, _ := json.MarshalIndent(all, "", " ")
+		fmt.Println(string(b))
+		return
+	}
 	if len(os.Args) > 1 && os.Args[1] == "manifest" {
 		manifestMain()
 		return
